@@ -346,6 +346,7 @@ ValidMd(md) ==
   /\ \A s, t \in DOMAIN md.shapes : md.shapes[s] = md.shapes[t] => s = t
   /\ md.targets # <<>> =>
        "evaluator" \in LRange(md.shapes) /\ LRange(md.targets) \subseteq S
+  /\ \A s, t \in DOMAIN md.targets : md.targets[s] = md.targets[t] => s = t
   /\ LRange(md.refel) \subseteq RefProps
   /\ \A s, t \in DOMAIN md.refel : md.refel[s] = md.refel[t] => s = t
 
@@ -420,7 +421,8 @@ ShapeSeqs == { s \in SeqsUpTo(Shapes, 2) : Len(s) = 2 => s[1] # s[2] }
 FewShapes == { <<"xyoz">>, <<"evaluator">>, <<"evaluator", "face">> }
 TargetChoices(t, b, sh) ==
   IF "evaluator" \in LRange(sh)
-  THEN {<<>>} \cup { <<f, g>> : f \in SpacesOf(b), g \in SpacesOf(b) }
+  THEN {<<>>} \cup { tg \in { <<f, g>> : f \in SpacesOf(b), g \in SpacesOf(b) } :
+                        tg[1] # tg[2] }
        \cup (IF t = "thorough" THEN { <<f>> : f \in SpacesOf(b) } ELSE {})
   ELSE {<<>>}
 S2Q(t) ==
